@@ -513,3 +513,122 @@ def scalarize_tuples(prog, body):
     nb = Body(prog, raw, body.crate)
     nb.children = body.children
     return nb
+
+
+# ---- closures handed to the Option / Result adaptors of the standard library ---------------------------------------------------
+# name -> (enum, variant whose payload goes to the closure, wrapper of the closure's result, the other variant, its wrapper).
+# wrapper None = the value itself; "=" = the adaptor returns its receiver (inspect*).
+ADAPTORS = {
+    "core::result::Result::map_err": ("Result", "Err", "Err", "Ok", "Ok"),
+    "core::result::Result::map": ("Result", "Ok", "Ok", "Err", "Err"),
+    "core::result::Result::and_then": ("Result", "Ok", None, "Err", "Err"),
+    "core::result::Result::or_else": ("Result", "Err", None, "Ok", "Ok"),
+    "core::result::Result::unwrap_or_else": ("Result", "Err", None, "Ok", None),
+    "core::result::Result::inspect_err": ("Result", "Err", "=", "Ok", "="),
+    "core::result::Result::inspect": ("Result", "Ok", "=", "Err", "="),
+    "core::option::Option::map": ("Option", "Some", "Some", "None", "None"),
+    "core::option::Option::and_then": ("Option", "Some", None, "None", "None"),
+    "core::option::Option::or_else": ("Option", "None", None, "Some", "Some"),
+    "core::option::Option::ok_or_else": ("Option", "None", "Err", "Some", "Ok"),
+    "core::option::Option::unwrap_or_else": ("Option", "None", None, "Some", None),
+    "core::option::Option::inspect": ("Option", "Some", "=", "None", "="),
+}
+_ENUMS = {"Result": ("core::result::Result", [[0, "Ok", 0], [1, "Err", 1]]), "Option": ("core::option::Option", [[0, "None", 0], [1, "Some", 1]])}
+_WRAP_ENUM = {"Ok": "Result", "Err": "Result", "Some": "Option", "None": "Option"}
+
+
+def desugar_adaptors(prog, body, accept):
+    """Synthetic Body in which `r.map_err(|e| { .. })` (and the other Option / Result adaptors taking a closure) are written out as
+    the `match` they stand for, with the closure's body spliced into its arm: what a closure does when the adaptor calls it —
+    sending an event, answering a request — then lies on the paths of the function like the arm of a hand-written match.  Only
+    closures written in this function (its own closure aggregates) and accepted by `accept(closure body)` are taken; block
+    numbers of the original are preserved (new blocks are appended)."""
+    raw = dict(body.raw)
+    mir = {"argc": body.mir["argc"], "locals": list(copy.deepcopy(body.locals)), "blocks": copy.deepcopy(body.blocks)}
+    for k, v in body.mir.items():
+        if k not in mir:
+            mir[k] = v
+    raw["mir"] = mir
+    blocks = mir["blocks"]
+    done = []
+
+    def fresh(ty):
+        mir["locals"].append({"ty": ty, "name": None, "synthetic": True})
+        return len(mir["locals"]) - 1
+
+    def wrap(dest, variant, op, span):
+        if variant is None:
+            return {"k": "assign", "place": copy.deepcopy(dest), "rv": {"k": "use", "op": op}, "span": span}
+        adt, vs = _ENUMS[_WRAP_ENUM[variant]]
+        vi = next(v[0] for v in vs if v[1] == variant)
+        return {"k": "assign", "place": copy.deepcopy(dest), "span": span,
+                "rv": {"k": "agg", "agg": "adt", "adt": adt, "adt_name": adt, "args": [], "variant": variant, "vi": vi,
+                       "fields": ["0"] if op is not None else [], "ops": [op] if op is not None else []}}
+
+    for bb in range(len(blocks)):
+        t = blocks[bb]["t"]
+        if t["k"] != "call" or len(t["args"]) != 2 or t.get("dest") is None or t.get("target") is None:
+            continue
+        f = callee(t)
+        spec = ADAPTORS.get(norm(f["name"])) if f is not None else None
+        if spec is None:
+            continue
+        cdef = _closure_def(blocks, t["args"][1])
+        cb = prog.bodies.get(cdef) if cdef else None
+        if cb is None or prog.bodies.get(cb.root, cb).id != prog.bodies.get(body.root, body).id or not accept(cb):
+            continue
+        enum, cvar, cwrap, ovar, owrap = spec
+        adt, variants = _ENUMS[enum]
+        span = blocks[bb].get("ts")
+        name = norm(f["name"])
+        rp = t["args"][0].get("copy") or t["args"][0].get("move")
+        R = fresh(body.local_ty(rp["l"]) if rp is not None and not rp["p"] else "?")
+        D = fresh("isize")
+        TMP = fresh("?")
+        ARGS = fresh("(?)")
+        base = len(blocks)
+        b_other, b_clos, b_wrap = base, base + 1, base + 2
+        cidx = next(v[0] for v in variants if v[1] == cvar)
+        blocks[bb]["s"].append({"k": "assign", "place": {"l": R, "p": []}, "rv": {"k": "use", "op": copy.deepcopy(t["args"][0])}, "span": span})
+        blocks[bb]["s"].append({"k": "assign", "place": {"l": D, "p": []}, "span": span,
+                                "rv": {"k": "discr", "place": {"l": R, "p": []}, "ty": adt, "enum": {"adt": adt, "variants": copy.deepcopy(variants)}}})
+        payload = lambda var: {"move": {"l": R, "p": [{"v": next(v[0] for v in variants if v[1] == var), "n": var}, {"f": 0, "n": "0", "ty": "?"}]}}
+        # the arm that does not call the closure
+        if owrap == "=":
+            so = [{"k": "assign", "place": copy.deepcopy(t["dest"]), "rv": {"k": "use", "op": {"move": {"l": R, "p": []}}}, "span": span}]
+        else:
+            so = [wrap(t["dest"], owrap, payload(ovar) if ovar != "None" else None, span)]
+        blocks.append({"s": so, "t": {"k": "goto", "target": t["target"]}, "cleanup": False, "ts": span, "inlined_from": name})
+        # the arm that calls it
+        sc = []
+        if cvar == "None":
+            sc.append({"k": "assign", "place": {"l": ARGS, "p": []}, "rv": {"k": "agg", "agg": "tuple", "ops": []}, "span": span})
+        elif cwrap == "=":
+            P = fresh("&?")
+            sc.append({"k": "assign", "place": {"l": P, "p": []}, "span": span,
+                       "rv": {"k": "ref", "mut": False, "bk": "Shared", "place": payload(cvar)["move"]}})
+            sc.append({"k": "assign", "place": {"l": ARGS, "p": []}, "rv": {"k": "agg", "agg": "tuple", "ops": [{"move": {"l": P, "p": []}}]}, "span": span})
+        else:
+            sc.append({"k": "assign", "place": {"l": ARGS, "p": []}, "rv": {"k": "agg", "agg": "tuple", "ops": [payload(cvar)]}, "span": span})
+        call = {"k": "call", "func": {"const": {"c": "core::ops::function::FnOnce::call_once", "ty": "fn", "fn": {
+            "def": "core::ops::function::FnOnce::call_once", "name": "core::ops::function::FnOnce::call_once", "args": []}}},
+            "fty": "fn", "args": [copy.deepcopy(t["args"][1]), {"move": {"l": ARGS, "p": []}}], "dest": {"l": TMP, "p": []}, "target": b_wrap,
+            "unwind": t.get("unwind"), "fn_span": t.get("fn_span")}
+        blocks.append({"s": sc, "t": call, "cleanup": False, "ts": span, "inlined_from": name})
+        if cwrap == "=":
+            sw = [{"k": "assign", "place": copy.deepcopy(t["dest"]), "rv": {"k": "use", "op": {"move": {"l": R, "p": []}}}, "span": span}]
+        else:
+            sw = [wrap(t["dest"], cwrap, {"move": {"l": TMP, "p": []}}, span)]
+        blocks.append({"s": sw, "t": {"k": "goto", "target": t["target"]}, "cleanup": False, "ts": span, "inlined_from": name})
+        blocks[bb]["t"] = {"k": "switch", "discr": {"move": {"l": D, "p": []}}, "ty": "isize", "targets": [[cidx, b_clos]], "otherwise": b_other,
+                           "desugared_call": name}
+        done.append(name)
+    if not done:
+        return body
+    raw["desugared"] = done
+    nbody = Body(prog, raw, body.crate)
+    nbody.children = body.children
+    # the closure calls now sit in spliced code and the closures were written by the function itself: `inlined` takes them apart
+    out = inlined(prog, nbody, lambda cb: False, depth=2)
+    out.raw["desugared"] = done
+    return out
